@@ -488,6 +488,13 @@ func c17GenMsg(t *rapid.T, label string) string {
 	for i, n := 0, rapid.IntRange(1, 7).Draw(t, label+"_n"); i < n; i++ {
 		sb.WriteString(rapid.SampledFrom(pieces).Draw(t, label+"_piece"))
 	}
+	if rapid.IntRange(0, 7).Draw(t, label+"_long") == 0 {
+		// a line of several hundred octets (under the client's own line
+		// limit): the text is the backend's, however long
+		filler := rapid.SampledFrom([]string{"word ", "x", "é", "ab-"}).Draw(t, label+"_filler")
+		sb.WriteString(strings.Repeat(filler, rapid.IntRange(300, 1700).Draw(t, label+"_longn")/len(filler)))
+		sb.WriteString("end")
+	}
 	return sb.String()
 }
 
